@@ -9,6 +9,9 @@
    memory, matplotlib rendering, now()/today() and readline are runtime behaviour no model shows. *)
 From Coq Require Import List String Arith.
 From Ka Require Import Model.Num Model.Qty Model.Comb Model.Exec Proofs.ExecProofs.
+From Ka Require Import Proofs.ExecExtProofs Proofs.ExecExtProofs2.
+From Ka Require Model.Interval Model.Arrays Model.Prob Model.Elem Proofs.ElemProofs
+                Model.Instant Model.Sampling Model.Session.
 Local Open Scope nat_scope.
 Local Open Scope string_scope.
 
@@ -58,6 +61,74 @@ Theorem C06_commands_total : forall words,
         /\ mem_str impl GenFacts.InterpFacts.known_impls = true /\ List.length args <= 1).
 Proof. exact run_cmd_total. Qed.
 
+(* ---- the same for the other models of the development (Proofs/ExecExtProofs*.v): for ALL inputs each
+   modelled evaluator raises only classes that execute() diagnoses.  Hypotheses, where present, are the
+   ones the models themselves carry (Unmodelled = the model declines; fuel excluded where a bound is
+   proved; libm raising only OverflowError in-domain; comprehensions with one generator per name). *)
+Theorem C06_interval_apply_total_partial : forall (sqrtK : Q -> Q) (logK powK : Q -> Q -> Q) f args,
+  Interval.ka_apply sqrtK logK powK f args <> Raise Unmodelled ->
+  acceptable (outcome_of (Interval.ka_apply sqrtK logK powK f args)).
+Proof. exact IntervalExt.ka_apply_outcome. Qed.
+Theorem C06_interval_total_partial : forall (sqrtK : Q -> Q) (logK powK : Q -> Q -> Q) e,
+  Interval.eval sqrtK logK powK e <> Raise Unmodelled ->
+  acceptable (outcome_of (Interval.eval sqrtK logK powK e)).
+Proof. exact IntervalExt.ieval_outcome. Qed.
+Theorem C06_range_total : forall lo hi step, acceptable (outcome_of (Arrays.ka_range lo hi step)).
+Proof. exact ArraysExt.ka_range_outcome. Qed.
+Theorem C06_aggregates_total : forall ndims f l, acceptable (outcome_of (Arrays.run_agg ndims f l)).
+Proof. exact ArraysExt.run_agg_outcome. Qed.
+Theorem C06_comprehension_relative :
+  forall (V E : Type) (setv : string -> V -> E -> E) (as_arr : V -> option (list V))
+         (blike : V -> option bool) (P : exn -> Prop) body names gens conds env x,
+  List.length names = List.length gens -> P EvalError ->
+  (forall en y, body en = Raise y -> P y) ->
+  Forall (fun g => forall en y, g en = Raise y -> P y) gens ->
+  Forall (fun c => forall en y, c en = Raise y -> P y) conds ->
+  Arrays.eval_comprehension V E setv as_arr blike body names gens conds env = Raise x -> P x.
+Proof. exact ArraysExt.eval_comprehension_raises_wf. Qed.
+Theorem C06_arrays_total_partial : forall ndims e, ArraysExt.comp_wf e ->
+  Arrays.run ndims e <> Raise Unmodelled -> acceptable (outcome_of (Arrays.run ndims e)).
+Proof. exact ArraysExt.arr_run_outcome. Qed.
+Theorem C06_rv_params_total : forall l, acceptable (outcome_of (Prob.make_rv l)).
+Proof. exact ProbExt.make_rv_outcome. Qed.
+Theorem C06_rv_mean_total : forall l, acceptable (outcome_of (Prob.mean_of l)).
+Proof. exact ProbExt.mean_of_outcome. Qed.
+Theorem C06_probability_total_partial : forall fo l mk,
+  Prob.P_law fo l mk <> Raise Unmodelled -> acceptable (outcome_of (Prob.P_law fo l mk)).
+Proof. exact ProbExt.P_law_outcome. Qed.
+Theorem C06_elem_total : forall ext, ElemProofs.ext_raises_only_overflow ext ->
+  forall f args, acceptable (outcome_of (ElemExt.eout_res (Elem.elem ext f args))).
+Proof. exact ElemExt.elem_outcome. Qed.
+Theorem C06_instant_literal_total_partial : forall s,
+  Instant.instant_from_iso s <> Raise Unmodelled -> acceptable (outcome_of (Instant.instant_from_iso s)).
+Proof. exact InstantExt.instant_from_iso_outcome. Qed.
+Theorem C06_instant_ops_total_partial : forall s o,
+  (do i <- Instant.instant_from_iso s; InstantExt.op_result i o) <> Raise Unmodelled ->
+  acceptable (outcome_of (do i <- Instant.instant_from_iso s; InstantExt.op_result i o)).
+Proof. exact InstantExt.case_outcome. Qed.
+Theorem C06_sampling_total_partial :
+  forall (logK erfinvK : Q -> Q) (sqrt2 : Q) (expnegK : Q -> Q) (fuel : nat) (init : Z -> nat -> Q) o s,
+  SamplingExt.outv_res (fst (Sampling.run_op logK erfinvK sqrt2 expnegK fuel init o s)) <> Raise OutOfFuel ->
+  acceptable (outcome_of (SamplingExt.outv_res (fst (Sampling.run_op logK erfinvK sqrt2 expnegK fuel init o s)))).
+Proof. exact SamplingExt.run_op_outcome. Qed.
+Theorem C06_session_total_partial : forall ss t,
+  fst (Session.run_one ss t) <> Raise Unmodelled -> acceptable (outcome_of (fst (Session.run_one ss t))).
+Proof. exact SessionExt.run_one_outcome. Qed.
+Theorem C06_session_history_total_partial : forall h st o,
+  In o (fst (Session.run_hist h st)) -> o <> Raise Unmodelled -> acceptable (outcome_of o).
+Proof. exact SessionExt.run_hist_outcome. Qed.
+
+Example C06_ext_witness :
+  outcome_of (Arrays.ka_range (NInt 5) (NInt 1) (NInt 1)) = Diagnosed "1"
+  /\ outcome_of (Arrays.ka_range (NInt 1) (NInt 3) (NInt 1)) = Value
+  /\ outcome_of (Prob.make_rv (Prob.Binomial 0 (1#2))) = Diagnosed "1"
+  /\ outcome_of (Prob.mean_of (Prob.Geometric 0)) = Diagnosed "1"
+  /\ outcome_of (Instant.instant_from_iso "2021-02-30") = Diagnosed "1"
+  /\ outcome_of (do i <- Instant.instant_from_iso "9999-12-31"; InstantExt.op_result i Instant.OCeil) = Diagnosed "1"
+  /\ outcome_of (fst (Session.run_one [Session.Expr (Session.EVar "x")] [])) = Diagnosed "1"
+  /\ outcome_of (Arrays.run 0 (Arrays.EAgg Arrays.AMedian (Arrays.EArr []))) = Diagnosed "1".
+Proof. vm_compute. repeat split. Qed.
+
 Example C06_witness :
   outcome_of (aeval (ABin Div (ALit 1) (ALit 0))) = Diagnosed "1"
   /\ outcome_of (aeval (ABin Div (ALit 1) (ALit 2))) = Value
@@ -74,3 +145,18 @@ Print Assumptions C06_lazy_total.
 Print Assumptions C06_caret_inside.
 Print Assumptions C06_parse_index_inside.
 Print Assumptions C06_commands_total.
+Print Assumptions C06_interval_apply_total_partial.
+Print Assumptions C06_interval_total_partial.
+Print Assumptions C06_range_total.
+Print Assumptions C06_aggregates_total.
+Print Assumptions C06_comprehension_relative.
+Print Assumptions C06_arrays_total_partial.
+Print Assumptions C06_rv_params_total.
+Print Assumptions C06_rv_mean_total.
+Print Assumptions C06_probability_total_partial.
+Print Assumptions C06_elem_total.
+Print Assumptions C06_instant_literal_total_partial.
+Print Assumptions C06_instant_ops_total_partial.
+Print Assumptions C06_sampling_total_partial.
+Print Assumptions C06_session_total_partial.
+Print Assumptions C06_session_history_total_partial.
